@@ -81,6 +81,7 @@ def native_next_replay(model):
 
 
 def unit_next(S):
+    S.default_replay = native_next_replay
     S.under_contract(F_NEXT, F_INIT, F_ONSTEP)
     ctx = Ctx()
     st = sym(ctx, "st", ls_struct())
@@ -129,6 +130,7 @@ def unit_history(S):
     """Lemma over next's contract (loop rule over the step history, ghost sums):
     Inv(n): ret_n = S(last_n, n), len_n = n - last_n, episode_done_n = d_n   where last_n = index of the previous episode end
     (largest m < n with d_m, or 0), S(l, n) = r_{l+1} + ... + r_n  (S(l,l) = 0, S(l,n+1) = S(l,n) + r_{n+1})."""
+    S.default_replay = native_next_replay
     S.under_contract(F_NEXT)
     ctx = Ctx()
     I, R, B = z3.IntSort(), z3.RealSort(), z3.BoolSort()
